@@ -108,7 +108,7 @@ Definition common_rendered_line (ds : bytes * bytes * bytes) (cws : list Z)
   bind (if negb (nilb dright) && negb (nilb inner) then set_last fields dright
         else if negb (nilb dright) then Ok (fields ++ [dright])
         else if negb (nilb inner)
-             then (if (length fields =? 0)%nat then Panic     (* fields[:len(fields)-1] with len 0 *)
+             then (if (length fields =? 0)%nat then Ok fields  (* && len(fields) > 0  (repaired, D22: fields[:len(fields)-1] with len 0 panicked) *)
                    else Ok (firstn (length fields - 1) fields))
              else Ok fields) (fun fields =>
   Ok (join [SP] fields ++ [LF]))).
